@@ -37,7 +37,24 @@ func (o *out) e2eBoth(src string, op Opts) {
 
 var defSw = map[string]string{"V": "A", "W": "B"}
 
-func script(body string) string { return "script S {\n" + body + "\n}\n" }
+// script wraps an enumerated body; the enumerator writes every label as "L:" - number them so that the labels of a
+// script are distinct (a script that defines one label twice is the author's duplicate, outside every property)
+func script(body string) string {
+	n := strings.Count(body, "L:")
+	for i := 1; i <= n; i++ {
+		body = strings.Replace(body, "L:", fmt.Sprintf("L%d:", i), 1)
+	}
+	k := 0
+	for strings.Contains(body, "goto(L)") {
+		k++
+		t := "External_Label"
+		if n > 0 {
+			t = fmt.Sprintf("L%d", 1+(k*7)%n)
+		}
+		body = strings.Replace(body, "goto(L)", "goto("+t+")", 1)
+	}
+	return "script S {\n" + body + "\n}\n"
+}
 
 func randomScripts(o *out, r *Rng, n int, conf func(g *ScriptGen), layout int) {
 	for i := 0; i < n; i++ {
@@ -70,7 +87,7 @@ func seeds(o *out, op Opts) {
 
 func genC01(o *out, r *Rng) {
 	o.dir("PROJ", "text")
-	o.dir("ORACLE", "sem")
+	o.dir("ORACLE", "sem,validate")
 	seeds(o, Opts{Sw: defSw})
 	for size := 1; size <= scale(3, 4); size++ {
 		for _, b := range EnumSkeletons(size, 2) {
@@ -89,7 +106,7 @@ func genC01(o *out, r *Rng) {
 
 func genC02(o *out, r *Rng) {
 	o.dir("PROJ", "text")
-	o.dir("ORACLE", "sem")
+	o.dir("ORACLE", "sem,validate")
 	for k := 1; k <= scale(2, 3); k++ {
 		z := 0
 		for _, e := range EnumBexp(k, &z, true) {
@@ -133,7 +150,7 @@ var swCtx = []string{"script S { %s }", "script S { before %s after }", "script 
 
 func genC03(o *out, r *Rng) {
 	o.dir("PROJ", "text")
-	o.dir("ORACLE", "sem")
+	o.dir("ORACLE", "sem,validate")
 	seeds(o, Opts{Sw: defSw})
 	for k := 0; k <= scale(3, 4); k++ {
 		for _, sw := range EnumSwitch(k) {
@@ -169,7 +186,7 @@ func progCases(o *out, r *Rng, n int, conf func(g *ProgGen), op Opts, layout int
 
 func genC04(o *out, r *Rng) {
 	o.dir("PROJ", "text")
-	o.dir("ORACLE", "closed,sem")
+	o.dir("ORACLE", "closed,sem,validate")
 	seeds(o, Opts{Sw: defSw})
 	progCases(o, r, scale(200, 4000), func(g *ProgGen) { g.UseConst = r.P(50) }, Opts{}, 0)
 	randomScripts(o, r, scale(300, 6000), func(g *ScriptGen) { g.UseText = true; g.UseArgs = true }, 0)
@@ -182,7 +199,7 @@ func genC04(o *out, r *Rng) {
 
 func genC05(o *out, r *Rng) {
 	o.dir("PROJ", "text")
-	o.dir("ORACLE", "optim,sem")
+	o.dir("ORACLE", "optim,sem,validate")
 	seeds(o, Opts{Sw: defSw})
 	for size := 1; size <= 3; size++ {
 		for _, b := range EnumSkeletons(size, 2) {
@@ -402,7 +419,7 @@ func genC10(o *out, r *Rng) {
 
 func genC11(o *out, r *Rng) {
 	o.dir("PROJ", "text")
-	o.dir("ORACLE", "sem")
+	o.dir("ORACLE", "sem,validate")
 	cfgs := []string{"", "checkitem=VAR_RESULT,random=VAR_RANDOM,specialvar=#0", "checkitem=#0,random=#0,specialvar=#1", "checkitem=VAR_A,random=VAR_A,specialvar=#2", "specialvar=#5,random=#-1,checkitem=X"}
 	for _, cfg := range cfgs {
 		for _, s := range []string{
